@@ -8,11 +8,11 @@ from rules import registry as REG
 TECH = {
  "C01": "static analysis: THIR/MIR rules over the autograd engine and all backward closures (slot arity+gating, Boolean evaluation of every attach guard incl. the attach primitives, shared-slot clone provenance, counter-guard control dependence, shape typestate, additive merge); composite operations read in an exact algebra: no dependence on an operand through a number taken out of the graph (derivative with respect to the extracted number identically zero)",
  "C02": "static analysis: parameter-dependence taint, linearity type system and accumulate-on-scatter rule over every backward closure; adjointness of the convolution's scatter / gather kernels as index polynomials (symbolic div / mod simplification); symbolic differentiation of every element-wise forward map compared with its backward slot in an exact rational-function algebra (sibling cross-check, nothing executed); symbolic shape type system for the matrix product's deltas and for single-operand sliced_op calls under all transposition flags; axis (units-of-measure) type system for the convolution index arithmetic and sibling agreement of the window-count formula; reduce-last rule (THIR via rustc_private driver); piecewise derivatives compared interval by interval; narrowing casts and integer division are opaque functions; derivative of a sliced_op constructor walks back at the forward call's slice depth",
- "C03": "static analysis: shape typestate over the engine's delta/gradient sinks (THIR dataflow)",
- "C04": "static analysis: structural reading of the broadcast-shape function (pairing direction; refusal condition and stored value decided on the finite grid of orderings), forward maps of the element-wise operators in an exact algebra, alignment-consistency (contradiction) rule over every place where sliced_op matches operand dimensions against the target; provenance of the dimensions of every value the combinator returns",
- "C05": "static analysis: load / store indices of the matrix-product kernel translated from THIR into integer polynomials (lets resolved, flag conditionals folded per assignment) and compared with the row-major positions of op(A)[r,k], op(B)[k,j], C[r,j]; symbolic evaluation of the dimension reads under each transposition assignment; the compatibility assertion evaluated for every pair of ranks at which both inner dimensions exist (reached, not escaped); provenance of the broadcast target dimensions for every pair of ranks; alignment consistency of the slice walk the batched product goes through; iterator-length model of the pipeline that copies the additive term; the multi-index fold",
- "C06": "static analysis: load / store indices of im2col and of the output transposition as integer polynomials (running counters as affine functions of the loop indices: rank of the common loops times the update's inner iterations) compared with the documented sliding-window positions; axis (units-of-measure) typing and window-count formula agreement",
- "C07": "static analysis: forward maps of the point-wise functions, softmax, sum_all and reshape translated from THIR into an exact rational-function algebra and compared with the documented definitions; constructor funnel for reshape's refusal",
+ "C03": "static analysis: shape typestate over the engine's delta/gradient sinks (THIR dataflow); shape contract on a finite grid: the operation's source evaluated in its shape slice (abstract interpretation: dimensions, ranks, counts and flags concrete, element data abstracted) refuses exactly the inadmissible shapes and returns the documented dimensions",
+ "C04": "static analysis: structural reading of the broadcast-shape function (pairing direction; refusal condition and stored value decided on the finite grid of orderings), forward maps of the element-wise operators in an exact algebra, alignment-consistency (contradiction) rule over every place where sliced_op matches operand dimensions against the target; provenance of the dimensions of every value the combinator returns; shape contract on a finite grid: the operation's source evaluated in its shape slice (abstract interpretation: dimensions, ranks, counts and flags concrete, element data abstracted) refuses exactly the inadmissible shapes and returns the documented dimensions; array-building code never pairs the raw buffers of two different arrays without established equal dimensions",
+ "C05": "static analysis: load / store indices of the matrix-product kernel translated from THIR into integer polynomials (lets resolved, flag conditionals folded per assignment) and compared with the row-major positions of op(A)[r,k], op(B)[k,j], C[r,j]; symbolic evaluation of the dimension reads under each transposition assignment; the compatibility assertion evaluated for every pair of ranks at which both inner dimensions exist (reached, not escaped); provenance of the broadcast target dimensions for every pair of ranks; alignment consistency of the slice walk the batched product goes through; iterator-length model of the pipeline that copies the additive term; the multi-index fold; shape contract on a finite grid: the operation's source evaluated in its shape slice (abstract interpretation: dimensions, ranks, counts and flags concrete, element data abstracted) refuses exactly the inadmissible shapes and returns the documented dimensions",
+ "C06": "static analysis: load / store indices of im2col and of the output transposition as integer polynomials (running counters as affine functions of the loop indices: rank of the common loops times the update's inner iterations) compared with the documented sliding-window positions; axis (units-of-measure) typing and window-count formula agreement; shape contract on a finite grid: the operation's source evaluated in its shape slice (abstract interpretation: dimensions, ranks, counts and flags concrete, element data abstracted) refuses exactly the inadmissible shapes and returns the documented dimensions",
+ "C07": "static analysis: forward maps of the point-wise functions, softmax, sum_all and reshape translated from THIR into an exact rational-function algebra and compared with the documented definitions; constructor funnel for reshape's refusal; shape contract on a finite grid: the operation's source evaluated in its shape slice (abstract interpretation: dimensions, ranks, counts and flags concrete, element data abstracted) refuses exactly the inadmissible shapes and returns the documented dimensions",
  "C08": "static analysis: type walk for interior mutability, unsafe scan, MIR place-context scan for writes/mutable borrows, public-API signature scan, destructor scan, inventory of stores through `&mut Array` (only Optimizer::update re-seats a handle)",
  "C09": "static analysis: exhaustive Boolean evaluation of every constructor's attach guard, slot gating, flag-writer inventory and stop/restore pairing, consumer-count descent only through tracked children, no operation of several operands returns one of them; the seed of a pass is never marked tracked; the consumer counting does not depend on a node's own flags",
  "C10": "static analysis: engine-state layering (who touches counters/deltas/gradients), take-only delta reads, additive accumulate arms",
@@ -21,7 +21,7 @@ TECH = {
  "C13": "static analysis: the element-wise store of update read in an exact algebra (old - rate x gradient) and provenance of the rate field in every constructor; dataflow of the value stored over each parameter in Optimizer::update (fresh constructor, same dimensions, tracked) and order/subset agreement of its producer and consumer traversals; no call in update that needs unique ownership of a buffer; per-parameter gating of the write-back (presence of a gradient, never its values), flat buffers filled and drained at the same filter stage",
  "C14": "static analysis: provenance of the parameters installed by update, optimizer state inventory (interior mutability), retained-slot / static inventory of Model, layers and optimizers, consumer-count protocol, slot gating of every derivative closure (a tracked operand always receives its slot) and engine-state layering (no counter residue between passes)",
  "C15": "static analysis: cost closures, Layer::forward implementations and Model::forward/backward translated from THIR into an exact algebra with uninterpreted function symbols and compared with the documented formulas; structural composition-order check of the layer loop; axis typing of the (rows, cols) pairs stored by layer constructors; configuration handed to a layer constructor stored as given, component by component; who-may-write rule for the model's stored output (not backward / update)",
- "C16": "static analysis: constructor funnel + dominating assertions, no later write (MIR), equality reads exactly dimensions and values and compares the elements as numbers (no conversion on the way); the multi-index fold evaluated on symbolic lists (ranks 1..4, all unit-dimension patterns) and compared with the row-major polynomial; approximate comparisons use every tolerance they receive in its position; comparisons of a part of a field are not equality of the field",
+ "C16": "static analysis: constructor funnel + dominating assertions, no later write (MIR), equality reads exactly dimensions and values and compares the elements as numbers (no conversion on the way); the multi-index fold evaluated on symbolic lists (ranks 1..4, all unit-dimension patterns) and compared with the row-major polynomial; approximate comparisons use every tolerance they receive in its position; comparisons of a part of a field are not equality of the field; shape contract on a finite grid: the operation's source evaluated in its shape slice (abstract interpretation: dimensions, ranks, counts and flags concrete, element data abstracted) refuses exactly the inadmissible shapes and returns the documented dimensions",
  "C17": "static analysis: linearity type system (Z/L/C/N) over backward closures and the engine's delta path; default-seed provenance; a supplied seed reaches the pass on every match arm",
  "C18": "static analysis: ownership-edge inventory over ADT field types, MIR writers of the edge list, closure captures, retained slots, Boolean evaluation of every attach guard (untracked operands record nothing); the seed of a pass is never marked tracked (gradients hold no graph)",
  "C19": "static analysis: body-by-body MIR comparison of the default and f32 builds with the float width erased; scan for width-characteristic constants, float-dependent refusals and float-to-integer conversions; rule results compared across configurations",
